@@ -179,3 +179,25 @@ def best_key(type_name: str, hole, board):
         if k is not None and (best is None or k > best):
             best = k
     return best
+
+
+# --------------------------------------------------------------------------- exposed (stud) hands
+def exposed_key(cards, ace_high: bool):
+    """Rank of 1-4 exposed cards [(rank, suit)] in stud games: four of a kind > three of a kind >
+    two pair > one pair > no pair, then the ranks of the groups, largest group first; straights and
+    flushes do not count.  Higher is stronger."""
+    vs = [val(r, ace_high) for r, _ in cards]
+    cnt = Counter(vs)
+    groups = sorted(cnt.items(), key=lambda kv: (kv[1], kv[0]), reverse=True)
+    shape = tuple(c for _, c in groups)
+    if shape[0] == 4:
+        cat = 4
+    elif shape[0] == 3:
+        cat = 3
+    elif shape[:2] == (2, 2):
+        cat = 2
+    elif shape[0] == 2:
+        cat = 1
+    else:
+        cat = 0
+    return (cat,) + tuple(v for v, _ in groups)
